@@ -151,6 +151,42 @@ func (a *ConstFuncParamAnnotator) VisitAssignStmt(stmt *ast.AssignStmt) ast.Visi
 	return ast.VisitRecurse
 }
 
+// the application of an overloaded operator is a call of the overloading function,
+// which the compiler generates from OverloadedBy and which is no child node of the expression
+func (a *ConstFuncParamAnnotator) visitOverload(overload *ast.OperatorOverload) ast.VisitResult {
+	if overload == nil {
+		return ast.VisitRecurse
+	}
+	return a.VisitFuncCall(&ast.FuncCall{
+		Name: overload.Decl.Name(),
+		Func: overload.Decl,
+		Args: overload.Args,
+	})
+}
+
+var (
+	_ ast.UnaryExprVisitor   = (*ConstFuncParamAnnotator)(nil)
+	_ ast.BinaryExprVisitor  = (*ConstFuncParamAnnotator)(nil)
+	_ ast.TernaryExprVisitor = (*ConstFuncParamAnnotator)(nil)
+	_ ast.CastExprVisitor    = (*ConstFuncParamAnnotator)(nil)
+)
+
+func (a *ConstFuncParamAnnotator) VisitUnaryExpr(expr *ast.UnaryExpr) ast.VisitResult {
+	return a.visitOverload(expr.OverloadedBy)
+}
+
+func (a *ConstFuncParamAnnotator) VisitBinaryExpr(expr *ast.BinaryExpr) ast.VisitResult {
+	return a.visitOverload(expr.OverloadedBy)
+}
+
+func (a *ConstFuncParamAnnotator) VisitTernaryExpr(expr *ast.TernaryExpr) ast.VisitResult {
+	return a.visitOverload(expr.OverloadedBy)
+}
+
+func (a *ConstFuncParamAnnotator) VisitCastExpr(expr *ast.CastExpr) ast.VisitResult {
+	return a.visitOverload(expr.OverloadedBy)
+}
+
 // checks if the given expr might mutate any of the given variables
 // returns the referenced variables
 func doesReferenceVarMutable(expr ast.Expression, decls []*ast.VarDecl) []*ast.VarDecl {
